@@ -608,3 +608,269 @@ def c15_soft_errors(prog):
         ok = getattr(errno, nm) in node.SOFT_SOCKET_FAILURES
         out.append(GroundOb(f"C15.soft[{nm}]", ok, "" if ok else f"errno.{nm} is treated as a hard failure"))
     return out
+
+
+def c03_untyped_names(prog):
+    """C03.U0 / C03.T7: (U0) no AVP name of the dictionary, normalised the way untyped commands do it
+    (replace('-', '_').lower()), is an attribute that an UndefinedMessage / UndefinedGroupedAvp object has anyway - so the
+    computed-name hasattr/getattr/setattr of _assign_attr_values only ever touch attributes of their own making (this is
+    what lets the contract treat the message like the plain container); (T7) no avp_def row of any class names the
+    attributes additional_avps / _additional_avps / avp_def (the contracts keep those apart from the declared attributes)."""
+    base = real("diameter.message._base")
+    dic = real("diameter.message.avp.dictionary")
+    names = {e["name"] for e in dic.AVP_DICTIONARY.values()}
+    for d in dic.AVP_VENDOR_DICTIONARY.values():
+        names |= {e["name"] for e in d.values()}
+    names.add("Unknown")
+    taken = set(dir(base.UndefinedMessage())) | set(dir(base.UndefinedGroupedAvp()))
+    bad = sorted(n for n in names if n.replace("-", "_").lower() in taken)
+    out = [GroundOb("C03.U0.normalised-names-do-not-shadow-message-attributes", not bad, ", ".join(bad[:8]),
+                    witness={"names": len(names)})]
+    _b, _cmds, classes = _all_message_classes()
+    grouped = real("diameter.message.avp.grouped")
+    holders = [c for c in classes if getattr(c, "avp_def", None)]
+    holders += [c for c in vars(grouped).values() if isinstance(c, type) and getattr(c, "avp_def", None)]
+    bad = sorted({f"{c.__name__}.{r.attr_name}" for c in holders for r in c.avp_def
+                  if r.attr_name in ("additional_avps", "_additional_avps", "avp_def", "_avps")})
+    out.append(GroundOb("C03.T7.no-row-names-the-undeclared-avp-lists", not bad, ", ".join(bad[:8]),
+                        witness={"classes": len(holders)}))
+    return out
+
+
+def c04_avp_name_writers(prog):
+    """C04.struct.avp-name-writers: the attribute `name` of an AVP object is assigned only in Avp.__init__ (to a string
+    literal), Avp.from_unpacker and Avp.new - the three functions whose contracts carry the class invariant
+    `Avp.name is not None`; no setattr(<avp>, "name", ...) anywhere in diameter.message (AST obligation)."""
+    import ast
+    allowed = ("Avp.__init__", "Avp.from_unpacker", "Avp.new")
+    sites = []
+    for q, fi in prog.functions.items():
+        if ".message." not in "." + q:
+            continue
+        for n in ast.walk(fi.node):
+            tgts = []
+            if isinstance(n, ast.Assign):
+                tgts = n.targets
+            elif isinstance(n, (ast.AnnAssign, ast.AugAssign)):
+                tgts = [n.target]
+            for t in tgts:
+                if isinstance(t, ast.Attribute) and t.attr == "name":
+                    sites.append((q, n.lineno))
+            if isinstance(n, ast.Call) and isinstance(n.func, ast.Name) and n.func.id == "setattr" and len(n.args) == 3 \
+                    and isinstance(n.args[1], ast.Constant) and n.args[1].value == "name":
+                sites.append((q, n.lineno))
+    bad = [f"{q}:{ln}" for q, ln in sites if not any(q.endswith(a) for a in allowed)]
+    ok = not bad and any(q.endswith("Avp.__init__") for q, _ in sites)
+    return [GroundOb("C04.struct.avp-name-writers", ok, "; ".join(bad) or "no assignment found in Avp.__init__", backend="ast")]
+
+
+def node_round_structure(prog):
+    """<P>.struct.io-round[...] (AST / control-flow obligations on Node._handle_connections): every round of the I/O loop
+    that does not leave through the stop branch runs, unconditionally and in this order, the receive sweep
+    (`for rsock in ready_r`), the send sweep (`for wsock in ready_w`), the timer sweep over every registered connection
+    (`for conn in list(self.connections.values()): self._check_timers(conn)`) and `self._reconnect_peers()`: each is a
+    direct child of the `while` body (not nested under a condition), no statement before it at that level can `continue`
+    or `break` the while loop, and the only `return` is inside `if _thread.is_stopped`.  This is what ties the per-connection
+    contracts of _check_timers / _reconnect_peers and of the loop slices to 'at the next timer check' in C06/C11/C12/C18."""
+    import ast
+    fi = next((f for q, f in prog.functions.items() if q.endswith("node.Node._handle_connections")), None)
+    out = []
+
+    def ob(name, ok, detail=""):
+        # ok None = the code has a shape this rule does not know: undecided, never a violation
+        out.append(GroundOb(f"struct.io-round[{name}]", ok if ok is None else bool(ok), detail, backend="ast"))
+    if fi is None:
+        ob("function-found", False, "Node._handle_connections not found")
+        return out
+    loops = [n for n in fi.node.body if isinstance(n, ast.While)]
+    ok_loop = len(loops) == 1 and isinstance(loops[0].test, ast.Constant) and loops[0].test.value is True
+    ob("single-endless-loop", ok_loop, f"{len(loops)} top-level while statements")
+    if not ok_loop:
+        return out
+    body = loops[0].body
+
+    def escapes(stmt):
+        """continue/break (of the enclosing while) or return reachable inside stmt, not counting nested loops' own"""
+        found = []
+
+        def walk(n, in_loop):
+            for c in ast.iter_child_nodes(n):
+                if isinstance(c, (ast.FunctionDef, ast.Lambda, ast.ClassDef)):
+                    continue
+                if isinstance(c, (ast.Continue, ast.Break)) and not in_loop:
+                    found.append((type(c).__name__.lower(), c.lineno))
+                elif isinstance(c, ast.Return):
+                    found.append(("return", c.lineno))
+                walk(c, in_loop or isinstance(c, (ast.For, ast.While)))
+        if isinstance(stmt, (ast.Continue, ast.Break)):
+            found.append((type(stmt).__name__.lower(), stmt.lineno))
+        elif isinstance(stmt, ast.Return):
+            found.append(("return", stmt.lineno))
+        walk(stmt, isinstance(stmt, (ast.For, ast.While)))
+        return found
+
+    def find(pred):
+        return [i for i, s_ in enumerate(body) if pred(s_)]
+
+    def is_for(var, it_src):
+        return lambda s_: isinstance(s_, ast.For) and isinstance(s_.target, ast.Name) and s_.target.id == var \
+            and ast.unparse(s_.iter) == it_src
+    def calls(stmt, src_prefix):
+        return [n for n in ast.walk(stmt) if isinstance(n, ast.Call) and ast.unparse(n.func) == src_prefix]
+
+    def sweep_over(var_src):
+        # a direct-child `for <x> in <var_src>` (any target name)
+        return lambda s_: isinstance(s_, ast.For) and ast.unparse(s_.iter) == var_src
+
+    def timer_sweep(s_):
+        return isinstance(s_, ast.For) and isinstance(s_.target, ast.Name) and any(
+            isinstance(b_, ast.Expr) and isinstance(b_.value, ast.Call) and ast.unparse(b_.value.func) == "self._check_timers"
+            and [ast.unparse(a_) for a_ in b_.value.args] == [s_.target.id] for b_ in s_.body)
+    want = [("receive-sweep", sweep_over("ready_r"), "ready_r"),
+            ("send-sweep", sweep_over("ready_w"), "ready_w"),
+            ("timer-sweep", timer_sweep, "self._check_timers"),
+            ("reconnect", lambda s_: isinstance(s_, ast.Expr) and ast.unparse(s_.value) == "self._reconnect_peers()",
+             "self._reconnect_peers")]
+    pos = []
+    for name, pred, marker in want:
+        ix = find(pred)
+        if len(ix) == 1:
+            ob(f"{name}-is-an-unconditional-statement-of-the-round", True)
+        else:
+            # not (uniquely) at the top level of the round: conditional / removed (a violation) when the marker still occurs
+            # somewhere in the loop or nowhere at all; several candidates: the shape is not the one this rule knows (undecided)
+            nested = [n for n in ast.walk(loops[0]) if marker in ("ready_r", "ready_w") and isinstance(n, ast.For)
+                      and ast.unparse(n.iter) == marker] if marker in ("ready_r", "ready_w") else calls(loops[0], marker)
+            ob(f"{name}-is-an-unconditional-statement-of-the-round", False if len(ix) == 0 else None,
+               f"{len(ix)} direct children of the while body; {len(nested)} occurrences anywhere in the loop")
+        pos.append(ix[0] if len(ix) == 1 else None)
+    if pos[2] is not None:
+        it = ast.unparse(body[pos[2]].iter)
+        live = it in ("self.connections.values()", "self.connections.items()", "self.connections")
+        snap = it in ("list(self.connections.values())", "tuple(self.connections.values())",
+                      "list(self.connections.copy().values())", "self.connections.copy().values()")
+        ob("timer-sweep-visits-a-snapshot-of-all-registered-connections", True if snap else (False if live else None),
+           f"iterates over {it}" + (" - a live view: closing a connection inside the sweep changes the table under the "
+                                    "iteration (RuntimeError ends the I/O thread)" if live else ""))
+    if None not in pos:
+        ob("order", pos == sorted(pos), f"positions {pos}")
+        last = max(pos)
+        bad = []
+        for i, s_ in enumerate(body[:last + 1]):
+            for kind, ln in escapes(s_):
+                stop_branch = isinstance(s_, ast.If) and ast.unparse(s_.test) == "_thread.is_stopped"
+                if kind == "return" and stop_branch:
+                    continue
+                bad.append(f"{kind} at line {ln}")
+        ob("nothing-skips-the-rest-of-a-round", not bad, "; ".join(bad))
+    return out
+
+
+def message_statelessness(prog):
+    """struct.codec-stateless[...] (AST frame obligations on the package diameter.message): the codec functions keep no
+    state between calls - (1) no function is memoised (functools.lru_cache / cache); (2) no function other than the
+    documented registration functions (`register`) writes a module-level mutable object or a class-level mutable object
+    (subscript/attribute store, del, mutating method call, augmented assignment, `global`).  This is the frame condition
+    "modifies nothing outside its arguments and result" for objects the heap model does not contain; it is what makes
+    decode/encode/answer results independent of call history and of other threads' calls (C01/C02/C03/C04/C20)."""
+    import ast
+    MUT_CALLS = {"dict", "list", "set", "Packer", "Unpacker", "defaultdict", "OrderedDict", "deque", "bytearray", "Lock"}
+    MUTATORS = {"append", "extend", "insert", "pop", "popitem", "remove", "clear", "update", "setdefault", "add", "discard",
+                "reset", "sort", "reverse", "appendleft", "popleft", "cache_clear"}
+    MEMO = ("functools.lru_cache", "lru_cache", "functools.cache", "cache")
+
+    def is_mut(v):
+        if isinstance(v, (ast.Dict, ast.List, ast.Set, ast.ListComp, ast.DictComp, ast.SetComp)):
+            return True
+        if isinstance(v, ast.Call):
+            f = v.func
+            n = f.id if isinstance(f, ast.Name) else (f.attr if isinstance(f, ast.Attribute) else "")
+            return n in MUT_CALLS
+        return False
+    out = []
+    memo, writes = [], []
+    for mod, tree in prog.modules.items():
+        if not (mod == "diameter.message" or mod.startswith("diameter.message.")):
+            continue
+        mod_mut = set()
+        cls_mut = {}
+        for node in tree.body:
+            tg, val = [], None
+            if isinstance(node, ast.Assign):
+                tg, val = node.targets, node.value
+            elif isinstance(node, ast.AnnAssign) and node.value is not None:
+                tg, val = [node.target], node.value
+            for t in tg:
+                if isinstance(t, ast.Name) and is_mut(val):
+                    mod_mut.add(t.id)
+            if isinstance(node, ast.ClassDef):
+                for st_ in node.body:
+                    tg, val = [], None
+                    if isinstance(st_, ast.Assign):
+                        tg, val = st_.targets, st_.value
+                    elif isinstance(st_, ast.AnnAssign) and st_.value is not None:
+                        tg, val = [st_.target], st_.value
+                    for t in tg:
+                        if isinstance(t, ast.Name) and is_mut(val):
+                            cls_mut.setdefault(node.name, set()).add(t.id)
+        all_cls_mut = set().union(*cls_mut.values()) if cls_mut else set()
+
+        def shared(expr):
+            """does expr denote a module-level or class-level mutable object?"""
+            if isinstance(expr, ast.Name):
+                return expr.id in mod_mut
+            if isinstance(expr, ast.Attribute) and expr.attr in all_cls_mut:
+                b = expr.value
+                if isinstance(b, ast.Name) and (b.id in ("self", "cls") or b.id in cls_mut):
+                    return True
+                if isinstance(b, ast.Attribute) and b.attr == "__class__":
+                    return True
+            return False
+        for fn in [n for n in ast.walk(tree) if isinstance(n, (ast.FunctionDef, ast.AsyncFunctionDef))]:
+            decs = [ast.unparse(d).split("(")[0] for d in fn.decorator_list]
+            if any(d in MEMO for d in decs):
+                memo.append(f"{mod}.{fn.name}")
+            if fn.name == "register":
+                continue
+            # names rebound locally (parameters / plain assignments) shadow module globals
+            local = {a.arg for a in fn.args.args + fn.args.kwonlyargs + fn.args.posonlyargs}
+            for n in ast.walk(fn):
+                if isinstance(n, ast.Global):
+                    writes.append(f"{mod}.{fn.name}:{n.lineno} global {', '.join(n.names)}")
+                if isinstance(n, (ast.Assign, ast.AugAssign, ast.AnnAssign)):
+                    for t in (n.targets if isinstance(n, ast.Assign) else [n.target]):
+                        if isinstance(t, ast.Name):
+                            local.add(t.id)
+            # a local bound to a shared object is an alias of it (one level: `p = self._packer; p.reset()`)
+            alias = set()
+            for n in ast.walk(fn):
+                if isinstance(n, (ast.Assign, ast.AnnAssign)) and n.value is not None and shared(n.value):
+                    for t in (n.targets if isinstance(n, ast.Assign) else [n.target]):
+                        if isinstance(t, ast.Name):
+                            alias.add(t.id)
+            local -= alias
+            _shared0 = shared
+
+            def shared(expr, _s=_shared0, _a=alias):      # noqa: F811
+                return _s(expr) or (isinstance(expr, ast.Name) and expr.id in _a)
+            for n in ast.walk(fn):
+                tgts = []
+                if isinstance(n, ast.Assign):
+                    tgts = n.targets
+                elif isinstance(n, (ast.AugAssign, ast.AnnAssign)):
+                    tgts = [n.target]
+                elif isinstance(n, ast.Delete):
+                    tgts = n.targets
+                for t in tgts:
+                    base = t.value if isinstance(t, (ast.Subscript, ast.Attribute)) else None
+                    if base is not None and shared(base) and not (isinstance(base, ast.Name) and base.id in local):
+                        writes.append(f"{mod}.{fn.name}:{n.lineno} {ast.unparse(t)[:60]}")
+                    if isinstance(t, ast.Attribute) and isinstance(t.value, ast.Name) and t.value.id in cls_mut:
+                        writes.append(f"{mod}.{fn.name}:{n.lineno} {ast.unparse(t)[:60]}")
+                if isinstance(n, ast.Call) and isinstance(n.func, ast.Attribute) and n.func.attr in MUTATORS \
+                        and shared(n.func.value) and not (isinstance(n.func.value, ast.Name) and n.func.value.id in local):
+                    writes.append(f"{mod}.{fn.name}:{n.lineno} {ast.unparse(n.func)[:60]}(...)")
+    out.append(GroundOb("struct.codec-stateless[no-memoised-function]", not memo, "; ".join(memo), backend="ast"))
+    out.append(GroundOb("struct.codec-stateless[no-write-to-module-or-class-level-objects]", not writes,
+                        "; ".join(writes[:8]), backend="ast"))
+    return out
